@@ -29,3 +29,13 @@ func TestVerifWitness_C01_insert_at_0_0(t *testing.T) {
 	}
 	fmt.Println("WITNESS-HOLDS")
 }
+
+// C08/C16 server.calculateTextEditRange#ensures.start_le_cursor: the edit of a completion item must not start after the cursor.
+func TestVerifWitness_C16_edit_start_past_cursor(t *testing.T) {
+	r := calculateTextEditRange("account foo", protocol.Position{Line: 0, Character: 3}, ContextAccount)
+	if r != nil && r.Start.Character > r.End.Character {
+		fmt.Printf("WITNESS-FAILS line \"account foo\", cursor at 0:3, account context: edit range %d..%d starts after the cursor\n", r.Start.Character, r.End.Character)
+		return
+	}
+	fmt.Println("WITNESS-HOLDS")
+}
